@@ -1,1 +1,1 @@
-package ptracker
+package ptracker // needs:race
